@@ -183,6 +183,19 @@ def check(repo: Repo, rep: Report) -> None:
             rep.ob("A1-forward-unchanged", g, desc, p.kinds == [want],
                    f"on a non-raising path the {slot} handler of {root.parent.name if root.parent else root.name} does not forward "
                    f"exactly `{obs}.{want}`: the observed sequence is changed (dropped, duplicated or altered notification)")
+    # a side effect that raises is reported as ITS failure: the handler that catches it routes the caught exception
+    from ..engines.callguard import handler_routes, handler_catches_exception as _hce
+    rep.rule("A3-failure-routed", "do_*: an exception raised by a side-effect callback is the one delivered downstream", floor=6)
+    for g in mod.root.walk():
+        if not g.is_func or m.role.get(g) != "handler":
+            continue
+        for n in g.direct_nodes():
+            if isinstance(n, ast.Try):
+                for h in n.handlers:
+                    if _hce(h):
+                        rep.ob("A3-failure-routed", g, f"{g.qual.split('.', 1)[-1]}: `except {u(h.type) if h.type else ''} as {h.name}`", handler_routes(h),
+                               f"the handler around the side effect in {g.qual} does not deliver the exception it caught (it forwards "
+                               f"another value or nothing): the failure of the callback is lost or misreported")
     # the do_* operators observe a sequence without changing it -- that includes *when* it runs: the source is subscribed
     # with the subscriber's scheduler
     from .typestate_common import rule_scheduler_forwarded
